@@ -9,8 +9,8 @@
 EXTENDS Integers, Sequences, FiniteSets, TLC, Json
 CONSTANT TraceFile
 Trace == ndJsonDeserialize(TraceFile)
-VARIABLES l, cat, mem, ref, order, viol
-vars == <<l, cat, mem, ref, order, viol>>
+VARIABLES l, cat, mem, ref, order, wlive, wmaybe, viol
+vars == <<l, cat, mem, ref, order, wlive, wmaybe, viol>>
 Empty == [x \in {} |-> 0]
 Put(f, x, v) == [y \in DOMAIN f \cup {x} |-> IF y = x THEN v ELSE f[y]]
 Drop(f, x) == [y \in DOMAIN f \ {x} |-> f[y]]
@@ -35,29 +35,41 @@ ViewViol(t) ==
               THEN {<<l, "PartitionOrderChanged">>} ELSE {}
   IN catv \cup metav \cup memv \cup errv \cup ordv
 
-Init == l = 1 /\ cat = {} /\ mem = Empty /\ ref = <<>> /\ order = Empty /\ viol = {}
+Init == l = 1 /\ cat = {} /\ mem = Empty /\ ref = <<>> /\ order = Empty /\ wlive = {} /\ wmaybe = {} /\ viol = {}
 Step ==
   /\ l <= Len(Trace) /\ l' = l + 1
   /\ LET t == Trace[l] IN
-     CASE t.ev = "scenario" -> cat' = {} /\ mem' = Empty /\ ref' = <<>> /\ order' = Empty /\ viol' = viol
+     CASE t.ev = "scenario" -> cat' = {} /\ mem' = Empty /\ ref' = <<>> /\ order' = Empty /\ wlive' = {} /\ wmaybe' = {} /\ viol' = viol
        [] t.ev = "joined" -> /\ mem' = (IF t.ok = 1 THEN Put(mem, ToString(t.node), t.addr) ELSE mem)
-                             /\ viol' = viol \cup (IF t.ok = 1 THEN {} ELSE {<<l, "JoinFailed">>}) /\ UNCHANGED <<cat, ref, order>>
+                             /\ viol' = viol \cup (IF t.ok = 1 THEN {} ELSE {<<l, "JoinFailed">>}) /\ UNCHANGED <<cat, ref, order, wlive, wmaybe>>
        \* a join attempt whose handshake may be lost: acknowledged (the node reports itself ready) or refused
        [] t.ev = "joinattempt" -> /\ mem' = (IF t.ack = 1 THEN Put(mem, ToString(t.node), t.addr) ELSE mem)
-                                  /\ viol' = viol /\ UNCHANGED <<cat, ref, order>>
+                                  /\ viol' = viol /\ UNCHANGED <<cat, ref, order, wlive, wmaybe>>
        [] t.ev = "left" -> /\ mem' = (IF t.ok = 1 THEN Drop(mem, ToString(t.node)) ELSE mem)
-                           /\ viol' = viol /\ UNCHANGED <<cat, ref, order>>
+                           /\ viol' = viol /\ UNCHANGED <<cat, ref, order, wlive, wmaybe>>
        [] t.ev = "create" -> /\ cat' = (IF t.ok = 1 THEN cat \cup {t.id} ELSE cat) /\ ref' = <<>>
                              /\ order' = (IF t.ok = 1 THEN Put(order, t.id, t.parts) ELSE order)
-                             /\ viol' = viol \cup (IF t.ok = 1 THEN {} ELSE {<<l, "CreateFailed">>}) /\ UNCHANGED mem
+                             /\ viol' = viol \cup (IF t.ok = 1 THEN {} ELSE {<<l, "CreateFailed">>}) /\ UNCHANGED <<mem, wlive, wmaybe>>
        [] t.ev = "delete" -> /\ cat' = (IF t.ok = 1 THEN cat \ {t.id} ELSE cat) /\ ref' = <<>>
-                             /\ viol' = viol \cup (IF t.ok = 1 THEN {} ELSE {<<l, "DeleteFailed">>}) /\ UNCHANGED <<mem, order>>
-       [] t.ev = "started" -> /\ viol' = viol \cup (IF t.ok = 1 THEN {} ELSE {<<l, "RestartFailed">>}) /\ ref' = <<>> /\ UNCHANGED <<cat, mem, order>>
-       [] t.ev = "died" -> viol' = viol \cup {<<l, "NodeDied">>} /\ UNCHANGED <<cat, mem, ref, order>>
+                             /\ viol' = viol \cup (IF t.ok = 1 THEN {} ELSE {<<l, "DeleteFailed">>}) /\ UNCHANGED <<mem, order, wlive, wmaybe>>
+       [] t.ev = "started" -> /\ viol' = viol \cup (IF t.ok = 1 THEN {} ELSE {<<l, "RestartFailed">>}) /\ ref' = <<>> /\ UNCHANGED <<cat, mem, order, wlive, wmaybe>>
+       \* acknowledged writes against what a search returns afterwards (C03 on real server processes):
+       \* an acknowledged insert is there, an acknowledged remove is gone, nothing else appears; a write whose
+       \* acknowledgement was an error may or may not have taken effect
+       [] t.ev = "wack" -> /\ wlive' = (IF t.ok = 1 /\ t.kind = "insert" THEN wlive \cup {t.id}
+                                        ELSE IF t.ok = 1 /\ t.kind = "remove" THEN wlive \ {t.id} ELSE wlive)
+                           /\ wmaybe' = (IF t.ok = 1 THEN wmaybe \ {t.id} ELSE wmaybe \cup {t.id})
+                           /\ UNCHANGED <<cat, mem, ref, order, viol>>
+       [] t.ev = "found" -> LET got == {t.ids[j] : j \in 1..Len(t.ids)} IN
+                            /\ viol' = viol \cup (IF t.err # "" THEN {<<l, "SearchUnavailable">>}
+                                                   ELSE (IF (wlive \ wmaybe) \subseteq got THEN {} ELSE {<<l, "AckedLostOnRestart">>})
+                                                        \cup (IF got \subseteq wlive \cup wmaybe THEN {} ELSE {<<l, "GhostAfterRestart">>}))
+                            /\ UNCHANGED <<cat, mem, ref, order, wlive, wmaybe>>
+       [] t.ev = "died" -> viol' = viol \cup {<<l, "NodeDied">>} /\ UNCHANGED <<cat, mem, ref, order, wlive, wmaybe>>
        [] t.ev = "view" -> /\ viol' = viol \cup ViewViol(t)
                            /\ ref' = (IF ref = <<>> /\ Ids(t.datasets) = cat THEN t.datasets ELSE ref)
-                           /\ UNCHANGED <<cat, mem, order>>
-       [] OTHER -> UNCHANGED <<cat, mem, order, viol>> /\ ref' = <<>>
+                           /\ UNCHANGED <<cat, mem, order, wlive, wmaybe>>
+       [] OTHER -> UNCHANGED <<cat, mem, order, wlive, wmaybe, viol>> /\ ref' = <<>>
 Spec == Init /\ [][Step]_vars
 Report == l = Len(Trace) + 1 => PrintT(<<"VIOL", ToJson([n |-> Len(Trace), v |-> viol])>>)
 =============================================================================
